@@ -19,9 +19,15 @@ RULE = ('every registered definition x argument tuples from the typed '
         'corpus x spellings: fully positional; every positional|keyword '
         'split point; all-keyword; every subset of defaulted parameters '
         'omitted, skipped with empty slots, or given explicitly (eager '
-        'only); call(name, args, kwargs) (eager only); function and method '
+        'only); call(name, args, kwargs) (eager only; and, with lazily '
+        'evaluated parameters given a variable that holds a number, a '
+        'string or a host callable, positional / keyword / call() args / '
+        'call() kwargs); function and method '
         'spelling for extension methods; kind rule and documented keyword '
-        'names under the real names; non-trivial = >=3 distinct spellings '
+        'names under the real names; the same sweep in contexts created '
+        'under the Python and the camelCase naming convention, in one '
+        'process, in both orders of creation, with the keyword names '
+        'computed by a model of the convention; non-trivial = >=3 distinct spellings '
         'applicable and the positional baseline succeeded; distinct = '
         'distinct (definition, filling)')
 ASSUMPTIONS = [
@@ -31,7 +37,11 @@ ASSUMPTIONS = [
     'judged',
     'now, random and localtz are excluded by name; no_kwargs definitions '
     'are exempt from keyword spellings, lazily evaluated parameters from '
-    'call() and from explicit defaults',
+    'explicit defaults; lazily evaluated parameters go through call() only '
+    'as values (an expression cannot be passed through call()); operator '
+    'definitions are exempt from that group: the right side of "." must '
+    'be a call and that of "->" is evaluated in another context, so "$v" '
+    'is not a spelling of the value there',
     'context objects returned by let/def/with/unpack are compared by the '
     'variables they define',
 ]
@@ -47,10 +57,59 @@ def _engine():
 _S = {}
 
 
-def _ctx():
-    if 'ctx' not in _S:
-        _S['ctx'] = W.clone_context()
-    return _S['ctx']
+def _ctx(conv=None):
+    if ('ctx', conv) not in _S:
+        _S['ctx', conv] = W.clone_context(conv=conv)
+    return _S['ctx', conv]
+
+
+# python parameter name -> keyword name given explicitly in the library
+# source (specs.parameter(..., alias=...)); read from the source text so
+# that the expectation does not depend on the objects under test
+def _explicit_aliases():
+    if 'aliases' not in _S:
+        import glob
+        import os
+        import yaql
+        out = {}
+        root = os.path.dirname(yaql.__file__)
+        for fn in sorted(glob.glob(os.path.join(root, 'standard_library',
+                                                '*.py'))):
+            src = open(fn, encoding='utf-8').read()
+            for m in re.finditer(
+                    r"specs\.parameter\(\s*'(\w+)'[^)]*?alias='(\w+)'", src):
+                out[m.group(1)] = m.group(2)
+        _S['aliases'] = out
+    return _S['aliases']
+
+
+def model_alias(pyname, conv):
+    """the keyword name of a parameter under a naming convention"""
+    if pyname in _explicit_aliases():
+        return _explicit_aliases()[pyname]
+    if conv == 'python':
+        return pyname.rstrip('_')
+    return camel(pyname)
+
+
+def _world(conv):
+    """definitions of the context created under a convention, with the
+    keyword names replaced by the model's"""
+    if ('world', conv) not in _S:
+        out = {}
+        for d in W.definitions(conv=conv):
+            def fix(p):
+                if p is None or p.key in ('*', '**'):
+                    return p
+                return p._replace(alias=model_alias(p.name, conv or 'camel'))
+            m = W.Def(d.fd, d.layer, d.ordinal)
+            m.clone_name = d.clone_name
+            m.params = [fix(p) for p in m.params]
+            m.positional = [fix(p) for p in m.positional]
+            m.kwonly = [fix(p) for p in m.kwonly]
+            out[d.id] = m
+        _S['world', conv] = out
+    return _S['world', conv]
 
 
 def camel(name):
@@ -80,9 +139,10 @@ def _norm(v, depth=0):
     return repr(type(v))
 
 
-def evaluate(text, binds_fn):
+def evaluate(text, binds_fn, conv=None):
     try:
-        return ('ok', _norm(W.evaluate(text, binds_fn(), _ctx(), _engine())))
+        return ('ok', _norm(W.evaluate(text, binds_fn(), _ctx(conv),
+                                       _engine())))
     except Exception as e:   # noqa
         return ('exc', type(e).__name__)
 
@@ -214,11 +274,85 @@ def spellings(d, fill):
             return text, binds
         if all(f[0] == 'var' for f in base(0).positional):
             out.append(('call()', build(via_call)))
+    # 7. lazily evaluated parameters given a *value* (a variable holding
+    # data): the expression '$v' evaluates to that value every time, and
+    # call() passes the value itself - all spellings mean the same
+    DATA_ONLY = ('Lambda', 'LambdaMethod', 'Super', 'Delegate')
+    lazy_pos = [i for i, p in enumerate(pos_params)
+                if p.lazy and p.cls in DATA_ONLY and i >= first]
+    others_ok = all(not p.lazy or p.cls in DATA_ONLY for p in d.visible)
+    if lazy_pos and others_ok and not d.varargs and not d.kwonly and \
+            d.fd.name[:1] != '#':
+        def lazy_group(vi, val):
+            grp = 'lazydata%d' % vi
+
+            def data_call(c):
+                positional = [('var', val) if i in lazy_pos else f
+                              for i, f in enumerate(c.positional)]
+                return positional
+
+            def as_pos(c):
+                return render(c, data_call(c), [])
+
+            def as_kw(c):
+                pos = data_call(c)
+                cut = min(lazy_pos)
+                moved = [(p.alias, f) for p, f in zip(pos_params[cut:],
+                                                      pos[cut:])]
+                return render(c, pos[:cut], moved)
+
+            def mk_call(kwmode):
+                def fn(c):
+                    pos = data_call(c)
+                    if any(f[0] != 'var' for f in pos):
+                        raise ValueError('source-only filler')
+                    binds = {}
+
+                    def r(f):
+                        n = 'v%d' % len(binds)
+                        binds[n] = f[1]
+                        return '$' + n
+                    cut = min(lazy_pos) if kwmode else len(pos)
+                    args = [r(f) for f in pos[:cut]]
+                    kws = ', '.join('%s => %s' % (p.alias, r(f))
+                                    for p, f in zip(pos_params[cut:],
+                                                    pos[cut:]))
+                    if d.method_only and args:
+                        return "call('%s', [%s], {%s}, %s)" % (
+                            d.clone_name, ', '.join(args[1:]), kws,
+                            args[0]), binds
+                    return "call('%s', [%s], {%s})" % (
+                        d.clone_name, ', '.join(args), kws), binds
+                return fn
+            out.append((grp + ':positional', build(as_pos)))
+            if nk:
+                out.append((grp + ':keyword', build(as_kw)))
+            out.append((grp + ':call()', build(mk_call(False))))
+            if nk:
+                out.append((grp + ':call()-kwargs', build(mk_call(True))))
+        for vi, val in enumerate(LAZY_DATA):
+            lazy_group(vi, val)
     return out
 
 
+def _host_callable(*args):
+    return 'called'
+
+
+LAZY_DATA = [7, _host_callable, 'text']
+
+
 def check_def(run, case):
-    defs = {d.id: d for d in W.definitions()}
+    conv = case.get('conv')
+    if 'order' in case:
+        # the order in which the contexts of the two conventions come into
+        # being in this process is part of the case
+        for c in case['order']:
+            W.base_context(conv=c)
+    if 'conv' in case:
+        defs = _world(conv)
+    else:
+        defs = {d.id: d for d in W.definitions()}
     d = defs.get(case['def'])
     if d is None:
         run.exclude('definition no longer registered')
@@ -234,16 +368,18 @@ def check_def(run, case):
             text, binds = make()
         except Exception:   # noqa
             continue
-        out = evaluate(text, lambda b=binds: b)
+        out = evaluate(text, lambda b=binds: b, conv)
         results.append((label, text, out))
     by_group = {}
     for label, text, out in results:
-        g = label.split(':')[0] if label.startswith('defaults') else 'args'
+        g = label.split(':')[0] if ':' in label else 'args'
         by_group.setdefault(g, []).append((label, text, out))
     # varargs extras form their own group
     base_ok = results and results[0][2][0] == 'ok'
     run.case(case, len(results) >= 3 and base_ok,
-             cls=['definition', 'spellings=%d' % min(len(results), 9)] + [
+             cls=['definition', 'spellings=%d' % min(len(results), 9)] + (
+                 ['convention=%s' % (conv or 'default')]
+                 if 'conv' in case else []) + [
                  'spelling=' + (l.split(':')[1] if ':' in l else
                                 re.sub(r'-?\d+', '', l))
                  for l, _, _ in results])
@@ -349,9 +485,33 @@ def _shard(run, part, parts, fills):
         check_def(run, c)
 
 
+def _conv_shard(run, order, part, parts, fills):
+    # runs in a process in which no context exists yet: the contexts of the
+    # two conventions are created in the given order
+    for c in order:
+        W.base_context(conv=c)
+    jobs = []
+    for c in order:
+        for d in W.definitions(conv=c):
+            if d.no_kwargs or d.fd.name[:1] in '#*' or not any(
+                    p.key not in ('*', '**') for p in d.visible):
+                continue
+            for f in range(fills):
+                jobs.append({'kind': 'def', 'def': d.id, 'fill': f,
+                             'conv': c, 'order': list(order)})
+    for c in jobs[part::parts]:
+        check_def(run, c)
+
+
 def run(run):
     full = run.tier == 'thorough'
     _engine()
+    # before anything creates a context in this process (shards fork)
+    orders = [(None, 'python'), ('python', None), ('python', 'camel'),
+              ('camel', 'python')]
+    run.shards(_conv_shard, [(o, i, 4, 6 if full else 2)
+                             for o in orders for i in range(4)],
+               watchdog=120)
     common.std_context(delegates=True)
     for d in W.definitions():
         check_names(run, {'kind': 'names', 'def': d.id})
